@@ -52,3 +52,11 @@ CLAIMED["C11"] = dict(category=_MC,
          "stores, JSON value/str, add_from_json, Entity::from_json) or 4 request/context entry points; TLC re-derives each verdict from the recorded datum.",
     note="one schema family (Sc1: required/optional attrs, nested record, sets, entity refs, enum type, tags, diamond membership, action groups); data universe as generated. "
          "Trusts the harness's JSON-schema and entity-JSON renderers and TLC.")
+ENGINES[0]["serves_properties"].append("C03")
+CLAIMED["C03"] = dict(category=_MC,
+    text="The validator is specified by what it promises (TypedWorld.tla / Trace_Validate.tla): accepted => on every conformant environment the reference semantics yields a boolean "
+         "or only noEntity/overflow/ext errors; impossible => never satisfied; strict => permissive; and a syntactically defined must-accept fragment (documented has/hasTag guard "
+         "patterns) is accepted. TLC generates ~2900 policies (atoms x guards x connectives x scopes + type probes) over schema Sc2, proves the must-accept fragment sound on the model, "
+         "and for every policy recomputes its outcome class on all 960 conformant environments, comparing with the real evaluator's classes and the real validator's verdicts.",
+    note="bounded: one schema and its 960-environment universe, generated programs only; environments are accepted by the library's own validation (checked each run). "
+         "Node-by-node static-type inhabitation of the typed AST is not yet compared.")
